@@ -103,6 +103,8 @@ class World:
         self.side = os.path.join(base, "side")
         os.makedirs(self.root)
         os.makedirs(self.side)
+        self.tmpdir = os.path.join(self.side, "tmp")
+        os.makedirs(self.tmpdir)
         self.real_root = os.path.realpath(self.root)
         self.now = T0
         self.clock_seed = clock_seed
@@ -294,6 +296,8 @@ class World:
             "PYTHONDONTWRITEBYTECODE": "1",
             # a step that has to go through /bin/sh (not forked from the zygote) still gets the run's hash seed
             "PYTHONHASHSEED": os.environ.get("PYTHONHASHSEED", "0"),
+            # scratch space of the steps is part of the watched world (fixed scratch names shared by unordered steps are a race)
+            "TMPDIR": self.tmpdir,
         }
         if extra:
             env.update({k: v.replace("$ROOT", self.root).replace("$SIDE", self.side) for k, v in extra.items()})
